@@ -90,7 +90,11 @@ def point(draw, kinds=("jonswap", "jonswap", "pm", "swell_sea", "random", "empty
         # two separated sectors of steep waves at the same frequencies. The weaker one has 50-85 % of the height, so the
         # dissipation-weighted mean direction stays well defined.
         off = draw(fl(150.0, 210.0))
-        p.update({"hs2": p["hs"] * draw(fl(0.5, 0.85)), "fp2": fp * draw(fl(0.9, 1.1)), "theta2": (p["theta"] + off) % 360.0})
+        # both systems steep enough to break (two separated saturated sectors), narrow enough to stay separated
+        st_ = draw(fl(0.045, 0.09))
+        p["hs"] = float(min(st_ * G / (2 * math.pi * fp ** 2), 15.0))
+        p["power"] = draw(st.sampled_from([5, 10, 25]))
+        p.update({"hs2": p["hs"] * draw(fl(0.7, 0.92)), "fp2": fp * draw(fl(0.95, 1.05)), "theta2": (p["theta"] + off) % 360.0})
     if k == "random":
         p["seed"] = draw(st.integers(0, 2 ** 32 - 1))
         p["zero_fraction"] = draw(st.sampled_from([0.0, 0.3, 0.8]))
@@ -103,6 +107,8 @@ def sea_case(draw, max_points=8, nds=(16, 24, 36), kinds=None, steep=None, max_n
     n = draw(st.integers(1, max_points))
     nf = draw(st.integers(min_nf, max_nf))
     nd = draw(st.sampled_from(list(nds)))
+    if min_nf <= nd <= max_nf and draw(st.integers(0, 4)) == 0:
+        nf = nd          # square spectra (as many frequencies as directions): axes cannot be told apart by their length
     fk = draw(st.sampled_from(["geometric", "uniform"]))
     f0 = draw(fl(0.03, 0.06))
     t0k = draw(st.sampled_from(list(t0_choices)))
